@@ -669,17 +669,40 @@ func bitAxioms(op, r, a, b string, t types.Type) string {
 	lo, hi, _ := intBounds(t)
 	range_ := smtAnd("(<= "+lo+" "+r+")", "(<= "+r+" "+hi+")")
 	nonneg := smtAnd("(>= "+a+" 0)", "(>= "+b+" 0)")
+	eq := func(x, y string) string { return "(= " + x + " " + y + ")" }
+	m1 := "(- 1)"
+	_, signed, _ := intInfo(t)
 	switch op {
 	case "and":
-		return smtAnd(range_,
+		fs := []string{range_,
 			smtImp("(>= "+a+" 0)", smtAnd("(>= "+r+" 0)", "(<= "+r+" "+a+")")),
-			smtImp("(>= "+b+" 0)", smtAnd("(>= "+r+" 0)", "(<= "+r+" "+b+")")))
+			smtImp("(>= "+b+" 0)", smtAnd("(>= "+r+" 0)", "(<= "+r+" "+b+")")),
+			smtImp(eq(a, "0"), eq(r, "0")), smtImp(eq(b, "0"), eq(r, "0")), smtImp(eq(a, b), eq(r, a))}
+		if signed {
+			fs = append(fs, smtImp(eq(a, m1), eq(r, b)), smtImp(eq(b, m1), eq(r, a)))
+		}
+		// masks 2^k-1 on either side: x & (2^k-1) == x mod 2^k (two's complement)
+		for k := 1; k <= 32; k++ {
+			mask := "(- " + pow2str(k) + " 1)"
+			fs = append(fs, smtImp(eq(b, mask), eq(r, "(mod "+a+" "+pow2str(k)+")")), smtImp(eq(a, mask), eq(r, "(mod "+b+" "+pow2str(k)+")")))
+		}
+		return smtAnd(fs...)
 	case "or":
-		return smtAnd(range_, smtImp(nonneg, smtAnd("(>= "+r+" "+a+")", "(>= "+r+" "+b+")", "(<= "+r+" (+ "+a+" "+b+"))")))
+		fs := []string{range_, smtImp(nonneg, smtAnd("(>= "+r+" "+a+")", "(>= "+r+" "+b+")", "(<= "+r+" (+ "+a+" "+b+"))")),
+			smtImp(eq(a, "0"), eq(r, b)), smtImp(eq(b, "0"), eq(r, a)), smtImp(eq(a, b), eq(r, a))}
+		if signed {
+			fs = append(fs, smtImp(eq(a, m1), eq(r, m1)), smtImp(eq(b, m1), eq(r, m1)))
+		}
+		return smtAnd(fs...)
 	case "xor":
-		return smtAnd(range_, smtImp(nonneg, smtAnd("(>= "+r+" 0)", "(<= "+r+" (+ "+a+" "+b+"))")))
+		fs := []string{range_, smtImp(nonneg, smtAnd("(>= "+r+" 0)", "(<= "+r+" (+ "+a+" "+b+"))")),
+			smtImp(eq(a, "0"), eq(r, b)), smtImp(eq(b, "0"), eq(r, a)), smtImp(eq(a, b), eq(r, "0"))}
+		if signed {
+			fs = append(fs, smtImp(eq(a, m1), eq(r, "(- (- "+b+") 1)")), smtImp(eq(b, m1), eq(r, "(- (- "+a+") 1)")))
+		}
+		return smtAnd(fs...)
 	case "andnot":
-		return smtAnd(range_, smtImp("(>= "+a+" 0)", smtAnd("(>= "+r+" 0)", "(<= "+r+" "+a+")")))
+		return smtAnd(range_, smtImp("(>= "+a+" 0)", smtAnd("(>= "+r+" 0)", "(<= "+r+" "+a+")")), smtImp(eq(b, "0"), eq(r, a)))
 	}
 	return range_
 }
